@@ -1,6 +1,9 @@
 """C15 — merging sequences yields exactly the union of their music."""
+import ast
 import itertools
+import re
 import gens as G
+import h3midi_util as H
 import pyimpl as P
 from oracle_util import *  # noqa
 from protocol import from_real
@@ -34,8 +37,9 @@ CLAUSES = [
     ('TIE BY TRANSLATION, absolute view with object identity: the dict-heavy / aliasing methods of AbsoluteSequence are re-translated statement by statement on every run (Gen/AbsFns2.lean, tools/py2lean_abs2.py: Message objects live in a heap, a reference is a position tag, stores through any alias update the heap cell, dicts are insertion-ordered association lists, while loops carry proved fuel bounds) and proved equal to the hand models, for every heap and reference list with references into the heap and channels not None: merge read back = the model mergeAbs, no hypothesis',
      ["SCoda.AbsTie2.merge_refs", "SCoda.AbsTie2.mergeAbs_eq"]),
 ]
-RULE = ("families of 1-3 well-formed sequences x <=4 notes, same and different channels, overlapping and abutting notes, "
-        "different lengths, empty sequences; non-trivial = two inputs with notes on a common (channel, pitch)")
+RULE = ("families of 1-3 well-formed sequences x <=4 notes, same and different channels, several pitch sets (two colliding pitches, range and "
+        "MIDI limits, a cluster), overlapping and abutting notes, different lengths, empty sequences, inputs that all start with the same / their "
+        "own signature at tick 0, zero-length notes; non-trivial = two inputs with notes on a common (channel, pitch)")
 ASSUMPTIONS = ["models: SCoda.mergeAbs + SCoda.normalise (Seq.mergeSeq), tied by correspondence"]
 
 
@@ -81,6 +85,17 @@ def o_merge(inp):
         if len(ticks) == len(set(ticks)):     # unambiguous: at most one such event per tick
             if sig_in_force(allin, ty, default) != sig_in_force(tout, ty, default):
                 fails.append(("sigs", f"signature timeline differs: {sig_in_force(allin, ty, default)} vs {sig_in_force(tout, ty, default)}"))
+        # "every signature event that does not repeat the one in force is kept at its tick" — as EVENTS, and also when several inputs
+        # give a signature on one tick (audit 3, O10: the normal case, every input starts with a time signature at tick 0; the text does
+        # not say which of them comes last, so any order of the events of one tick is admitted, nothing else)
+        val = (lambda m: (m[NUM], m[DEN])) if ty == TIMESIG else (lambda m: m[KEY])
+        given = [(t, val(m)) for t, m in allin if m[TY] == ty]
+        kept = [(t, val(m)) for t, m in tout if m[TY] == ty]
+        bad = H.kept_events_violation(given, kept)
+        if bad == "too-many":
+            fails.append(("~unjudged:many-signatures-on-one-tick", ""))
+        elif bad:
+            fails.append(("sigs", f"{'time' if ty == TIMESIG else 'key'} signature events: {bad}"))
     shapes = None
     for order in itertools.permutations(range(len(rels))):
         try:
@@ -114,8 +129,29 @@ def setup(ctx):
     ctx.oracle("merge", o_merge)
 
     def kf_d17c(f):
-        # an input holds a zero-length note (note-on and note-off on one tick)
-        return f["clause"] in ("union", "order") and zero_length_input([[tuple(m) for m in r] for r in f["input"]["rels"]])
+        # an input holds a zero-length note (note-on and note-off on one tick) AND every (channel, pitch) whose notes / sounding intervals
+        # came out wrong is the key of such a note
+        if f["clause"] not in ("union", "order"):
+            return False
+        zero = set()
+        for r in f["input"]["rels"]:
+            tr, _ = rel_timed([tuple(m) for m in r])
+            zero |= {(c, p) for (c, p, on, off, _) in notes_of(tr) if on == off}
+        if not zero:
+            return False
+        try:
+            if f["clause"] == "union":
+                m = re.match(r"^expected (\{.*\}), got (\{.*\})$", f["detail"])
+                exp, got = ast.literal_eval(m.group(1)), ast.literal_eval(m.group(2))
+                damaged = {k for k in set(exp) | set(got) if exp.get(k) != got.get(k)}
+            else:
+                m = re.match(r"^note shapes depend on the order: (\[.*\]) vs (\[.*\]) \(order .*\)$", f["detail"])
+                a, b = ast.literal_eval(m.group(1)), ast.literal_eval(m.group(2))
+                keys = {(x[0], x[1]) for x in a + b}
+                damaged = {k for k in keys if sorted(x for x in a if (x[0], x[1]) == k) != sorted(x for x in b if (x[0], x[1]) == k)}
+        except Exception:
+            return False
+        return bool(damaged) and damaged <= zero
     ctx.kf_predicates["D17c"] = kf_d17c
 
 
@@ -126,11 +162,37 @@ def generate(ctx):
         k = rng.choice([1, 2, 2, 3])
         rels, allnotes = [], []
         chans = rng.choice([(0,), (0, 1)])
+        # mostly two pitches (so that notes of the inputs collide), sometimes other sets: range limits, MIDI limits, a cluster
+        pitches = rng.choice([[60, 62], [60, 62], [60, 62], [21, 108], [0, 127, 64], [59, 60, 61, 62]])
+        ctx.count("pitches:%s" % ("60,62" if pitches == [60, 62] else "other"))
+        start_sigs = rng.random() < 0.3
+        same_ts = rng.choice([(4, 4), (3, 4)]) if rng.random() < 0.6 else None
+        zero_len = rng.random() < 0.05
+        if start_sigs:
+            ctx.count("every-input-starts-with-a-signature-at-0:" + ("same" if same_ts else "own"))
         for _ in range(k):
             if rng.random() < 0.1:
                 rels.append([]); allnotes.append([])
                 continue
-            r, notes = G.gen_wf_rel(rng, n_notes=rng.randint(0, 4), channels=chans, pitches=[60, 62], max_tick=80, max_dur=40)
+            r, notes = G.gen_wf_rel(rng, n_notes=rng.randint(0, 4), channels=chans, pitches=pitches, max_tick=80, max_dur=40)
+            if start_sigs or zero_len:
+                a_ = [(t, m) for t, m in rel_timed(r)[0]]
+                ab = [(m[0], m[1], t) + tuple(m[3:]) for t, m in a_]
+                if start_sigs:
+                    # every input starts with a time signature (and perhaps a key) at tick 0: the same one, or its own
+                    ab = [m for m in ab if not (m[0] in (TIMESIG, KEYSIG) and m[2] == 0)]
+                    ts = same_ts if same_ts is not None else G.any_sig(rng)
+                    ab.insert(0, G.pm(TIMESIG, 0, 0, num=ts[0], den=ts[1]))
+                    if rng.random() < 0.4:
+                        ab.insert(1, G.pm(KEYSIG, 0, 0, key=rng.choice([0, 0, 5, rng.randrange(15)])))
+                if zero_len and rng.random() < 0.5:
+                    zc, zp = rng.choice(chans), rng.choice(pitches)
+                    zt = rng.choice([n[2] for n in notes] + [n[2] + n[3] for n in notes] + [rng.randint(0, 80)])
+                    if not any(x[0] == zc and x[1] == zp and x[2] <= zt <= x[2] + x[3] for x in notes):
+                        ab += [G.pm(ON, zc, zt, note=zp, vel=64), G.pm(OFF, zc, zt, note=zp)]
+                        ctx.count("zero-length-note-in-an-input(D17c class)")
+                ab = sorted(ab, key=lambda m: m[2])           # stable: the order within a tick stays as listed (on before off)
+                r = G.abs_to_rel(ab + [G.pm(INTERNAL, 0, rel_timed(r)[1])])
             if rng.random() < 0.25:
                 r = G.unconsolidate(rng, r)
                 ctx.count("rel:unconsolidated")
